@@ -33,3 +33,40 @@ def flags_part(ctx):
         return out
     out['inconclusive'].append('Rule::flags harness gave no verdict: ' + (r.stdout + r.stderr)[-300:])
     return out
+
+
+DECODER_FNS = ('HexaEscape_to_char::from', 'SimpleEscape_to_char::from', 'Utf8Escape_to_char::try_from')
+
+def decoders_part(ctx, full=False):
+    """complete (full) / large (quick) native check of the real escape decoders: stand-in when Verus cannot take them,
+    counterexample finder when one of their obligations fails"""
+    key = 'decoders_full' if full else 'decoders'
+    if key in ctx.cache: return ctx.cache[key]
+    out = {'status': 'error', 'why': None}
+    ctx.cache[key] = out
+    src = os.path.join(ctx.root, 'kani', 'flags')
+    dst = os.path.join(ctx.scratch, 'flags')
+    if not os.path.exists(dst):
+        shutil.copytree(os.path.join(src, 'src'), os.path.join(dst, 'src'))
+        open(os.path.join(dst, 'Cargo.toml'), 'w').write(open(os.path.join(src, 'Cargo.toml.in')).read().replace('@REPO@', ctx.repo))
+        lock = os.path.join(ctx.repo, 'Cargo.lock')
+        if os.path.exists(lock): shutil.copy(lock, os.path.join(dst, 'Cargo.lock'))
+    env = dict(os.environ, CARGO_NET_OFFLINE='true')
+    drv_target = os.path.join(ctx.scratch, 'drv', 'target')
+    if os.path.isdir(drv_target): env['CARGO_TARGET_DIR'] = drv_target
+    p = subprocess.run(['cargo', 'build', '--offline', '--release', '--bin', 'decoders'], cwd=dst, capture_output=True, text=True, env=env, timeout=1200)
+    if p.returncode != 0:
+        out['why'] = 'decoder harness does not build: ' + p.stderr[-300:]; return out
+    binp = os.path.join(env.get('CARGO_TARGET_DIR', os.path.join(dst, 'target')), 'release', 'decoders')
+    t0 = time.time()
+    r = subprocess.run([binp] + (['full'] if full else []), capture_output=True, text=True, timeout=3600)
+    m = re.search(r'DECODERS-PASS cases=(\d+) mode=(\w+)', r.stdout)
+    if m:
+        out.update({'status': 'pass', 'cases': int(m.group(1)), 'mode': m.group(2), 'wall_s': round(time.time() - t0, 1),
+                    'bound': 'every \\xXX, every simple escape, \\u escapes of 1..6 hex digits: complete in full mode (118.8M), digits 5 and 6 restricted in quick mode'})
+        return out
+    m = re.search(r'DECODERS-FAIL (.*)', r.stdout)
+    if m:
+        out.update({'status': 'fail', 'case': m.group(1)}); return out
+    out['why'] = (r.stdout + r.stderr)[-300:]
+    return out
